@@ -100,6 +100,9 @@ model/Tracing.vos model/Tracing.vok model/Tracing.required_vos: model/Tracing.v
 proofs/AbiFacts.vo proofs/AbiFacts.glob proofs/AbiFacts.v.beautified proofs/AbiFacts.required_vo: proofs/AbiFacts.v model/Score.vo model/Abi.vo
 proofs/AbiFacts.vio: proofs/AbiFacts.v model/Score.vio model/Abi.vio
 proofs/AbiFacts.vos proofs/AbiFacts.vok proofs/AbiFacts.required_vos: proofs/AbiFacts.v model/Score.vos model/Abi.vos
+proofs/ApplyFacts.vo proofs/ApplyFacts.glob proofs/ApplyFacts.v.beautified proofs/ApplyFacts.required_vo: proofs/ApplyFacts.v base/Bits.vo base/Types.vo base/BitBoard.vo base/Sweep.vo geom/Geometry.vo model/Board.vo model/MoveGen.vo model/Apply.vo proofs/BitsFacts.vo proofs/BitBoardFacts.vo proofs/SiteFacts.vo proofs/BridgeFacts.vo proofs/HashFacts.vo spec/Rules.vo
+proofs/ApplyFacts.vio: proofs/ApplyFacts.v base/Bits.vio base/Types.vio base/BitBoard.vio base/Sweep.vio geom/Geometry.vio model/Board.vio model/MoveGen.vio model/Apply.vio proofs/BitsFacts.vio proofs/BitBoardFacts.vio proofs/SiteFacts.vio proofs/BridgeFacts.vio proofs/HashFacts.vio spec/Rules.vio
+proofs/ApplyFacts.vos proofs/ApplyFacts.vok proofs/ApplyFacts.required_vos: proofs/ApplyFacts.v base/Bits.vos base/Types.vos base/BitBoard.vos base/Sweep.vos geom/Geometry.vos model/Board.vos model/MoveGen.vos model/Apply.vos proofs/BitsFacts.vos proofs/BitBoardFacts.vos proofs/SiteFacts.vos proofs/BridgeFacts.vos proofs/HashFacts.vos spec/Rules.vos
 proofs/BitBoardFacts.vo proofs/BitBoardFacts.glob proofs/BitBoardFacts.v.beautified proofs/BitBoardFacts.required_vo: proofs/BitBoardFacts.v base/Bits.vo base/BitBoard.vo proofs/BitsFacts.vo
 proofs/BitBoardFacts.vio: proofs/BitBoardFacts.v base/Bits.vio base/BitBoard.vio proofs/BitsFacts.vio
 proofs/BitBoardFacts.vos proofs/BitBoardFacts.vok proofs/BitBoardFacts.required_vos: proofs/BitBoardFacts.v base/Bits.vos base/BitBoard.vos proofs/BitsFacts.vos
@@ -172,9 +175,9 @@ proofs/ZobristFacts.vos proofs/ZobristFacts.vok proofs/ZobristFacts.required_vos
 props/C01.vo props/C01.glob props/C01.v.beautified props/C01.required_vo: props/C01.v base/Bits.vo base/Types.vo model/Board.vo model/MoveGen.vo spec/Rules.vo proofs/CoreFacts.vo
 props/C01.vio: props/C01.v base/Bits.vio base/Types.vio model/Board.vio model/MoveGen.vio spec/Rules.vio proofs/CoreFacts.vio
 props/C01.vos props/C01.vok props/C01.required_vos: props/C01.v base/Bits.vos base/Types.vos model/Board.vos model/MoveGen.vos spec/Rules.vos proofs/CoreFacts.vos
-props/C02.vo props/C02.glob props/C02.v.beautified props/C02.required_vo: props/C02.v base/Bits.vo base/Types.vo model/Board.vo model/MoveGen.vo model/Apply.vo spec/Rules.vo proofs/CoreFacts.vo
-props/C02.vio: props/C02.v base/Bits.vio base/Types.vio model/Board.vio model/MoveGen.vio model/Apply.vio spec/Rules.vio proofs/CoreFacts.vio
-props/C02.vos props/C02.vok props/C02.required_vos: props/C02.v base/Bits.vos base/Types.vos model/Board.vos model/MoveGen.vos model/Apply.vos spec/Rules.vos proofs/CoreFacts.vos
+props/C02.vo props/C02.glob props/C02.v.beautified props/C02.required_vo: props/C02.v base/Bits.vo base/Types.vo model/Board.vo model/MoveGen.vo model/Apply.vo spec/Rules.vo proofs/CoreFacts.vo proofs/HashFacts.vo proofs/ApplyFacts.vo
+props/C02.vio: props/C02.v base/Bits.vio base/Types.vio model/Board.vio model/MoveGen.vio model/Apply.vio spec/Rules.vio proofs/CoreFacts.vio proofs/HashFacts.vio proofs/ApplyFacts.vio
+props/C02.vos props/C02.vok props/C02.required_vos: props/C02.v base/Bits.vos base/Types.vos model/Board.vos model/MoveGen.vos model/Apply.vos spec/Rules.vos proofs/CoreFacts.vos proofs/HashFacts.vos proofs/ApplyFacts.vos
 props/C03.vo props/C03.glob props/C03.v.beautified props/C03.required_vo: props/C03.v base/Bits.vo base/Types.vo base/BitBoard.vo model/Board.vo model/MoveGen.vo model/Apply.vo model/Fen.vo spec/Rules.vo proofs/CoreFacts.vo proofs/BridgeFacts.vo proofs/PlayableFacts.vo
 props/C03.vio: props/C03.v base/Bits.vio base/Types.vio base/BitBoard.vio model/Board.vio model/MoveGen.vio model/Apply.vio model/Fen.vio spec/Rules.vio proofs/CoreFacts.vio proofs/BridgeFacts.vio proofs/PlayableFacts.vio
 props/C03.vos props/C03.vok props/C03.required_vos: props/C03.v base/Bits.vos base/Types.vos base/BitBoard.vos model/Board.vos model/MoveGen.vos model/Apply.vos model/Fen.vos spec/Rules.vos proofs/CoreFacts.vos proofs/BridgeFacts.vos proofs/PlayableFacts.vos
